@@ -48,9 +48,44 @@ def mkseed(v, t):
     return int(v)
 
 
+SEED_KINDS = ["int"] * 5 + ["none", "generator", "seedseq"]
+
+
+def seed_object(d):
+    """what the caller passes as the seed: an integer (held as some integer type), nothing at all ('none' = unseeded), a
+    PRIVATE numpy Generator built from the integer, or a numpy SeedSequence of it.  The last two denote the same stream as
+    the integer itself (numpy.random.default_rng passes a Generator through and seeds PCG64 from a SeedSequence)."""
+    kind = d.get("seed_kind", "int")
+    if kind == "none" or d["seed"] is None:
+        return None
+    v = mkseed(d["seed"], d.get("seed_type", "int"))
+    if kind == "generator":
+        return numpy.random.default_rng(v)
+    if kind == "seedseq":
+        return numpy.random.SeedSequence(int(v))
+    return v
+
+
+class GeneratorNotFound(Exception):
+    pass
+
+
+def inst_gen(s):
+    """the per-instance generator, for OBSERVING which generators an operation touches.  Its attribute name (`_R`) is private to
+    the library: if it is renamed, any single numpy Generator found among the instance attributes is used instead; if none can
+    be found the touch sets cannot be observed — a correspondence matter, not a violation of the property"""
+    g = getattr(s, "_R", None)
+    if isinstance(g, numpy.random.Generator):
+        return g
+    found = {id(v): v for k, v in vars(s).items() if isinstance(v, numpy.random.Generator)}       # (random_seed may hold the same object)
+    if len(found) == 1:
+        return list(found.values())[0]
+    raise GeneratorNotFound("no per-instance numpy Generator found on %s (attributes %s)" % (type(s).__name__, sorted(vars(s))[:30]))
+
+
 def mk_screen(cfg):
     from aotools.turbulence import infinitephasescreen as ips
-    cfg = dict(cfg, seed=mkseed(cfg["seed"], cfg.get("seed_type", "int")))
+    cfg = dict(cfg, seed=seed_object(cfg))
     if cfg["variant"] == "vk":
         return ips.PhaseScreenVonKarman(cfg["nx"], cfg["px"], cfg["r0"], cfg["L0"], random_seed=cfg["seed"], n_columns=cfg["ncol"])
     return ips.PhaseScreenKolmogorov(cfg["nx"], cfg["px"], cfg["r0"], cfg["L0"], random_seed=cfg["seed"],
@@ -69,7 +104,7 @@ def global_state():
 def finite_call(op):
     from aotools.turbulence import phasescreen
     f = phasescreen.ft_sh_phase_screen if op["sh"] else phasescreen.ft_phase_screen
-    return f(op["r0"], op["N"], op["delta"], op["L0"], op["l0"], seed=mkseed(op["seed"], op.get("seed_type", "int")))
+    return f(op["r0"], op["N"], op["delta"], op["L0"], op["l0"], seed=seed_object(op))
 
 
 def other_call(k):
@@ -86,20 +121,26 @@ def other_call(k):
 
 
 def canon(cfg):
-    """configuration up to the integer TYPE of the seed (the value is what matters; 'big' is a different value)"""
+    """configuration up to the integer TYPE of the seed and the FORM it is passed in (int / private Generator / SeedSequence):
+    the value is what matters ('big' is a different value; 'none' = unseeded is not a value at all)"""
     d = dict(cfg)
     d["seed_type"] = "big" if d.get("seed_type") == "big" else "int"
+    d["seed_kind"] = "none" if d.get("seed_kind") == "none" else "int"
     return d
 
 
-def gen_history(rng, quick, force_twin=False):
+OWN_OPS = ("create", "addRow", "read", "reinit", "getRow")
+
+
+def gen_history(rng, quick, force_twin=False, force_kind=None):
     n_inst = rng.randint(2, 4)
     cfgs = []
     for i in range(n_inst):
         if i > 0 and rng.random() < 0.5 and not (force_twin and i == 1):
             c0 = rng.choice(cfgs)                          # a reproduction of an earlier instance (same seed & parameters),
             st = c0["seed_type"] if c0["seed_type"] == "big" else rng.choice([t for t in SEED_TYPES if t != "big"])
-            cfgs.append(dict(c0, seed_type=st))            # the seed possibly held as another integer type
+            sk = "none" if c0["seed_kind"] == "none" else rng.choice(["int", "int", "generator", "seedseq"])
+            cfgs.append(dict(c0, seed_type=st, seed_kind=sk))   # the seed possibly held as another integer type / passed in another form
         elif i > 0 and (rng.random() < 0.4 or (force_twin and i == 1)):
             # same geometry and seed as an earlier instance but another r0 / L0: anything the library shares between
             # instances of one geometry (caches, class attributes) would leak from one into the other
@@ -108,7 +149,12 @@ def gen_history(rng, quick, force_twin=False):
         else:
             cfgs.append({"variant": rng.choice(["vk", "vk", "fried"]), "nx": rng.choice([6, 8, 9, 12] if quick else [6, 8, 9, 12, 16, 17]),
                          "px": rng.choice([0.05, 0.1]), "r0": rng.choice([0.1, 0.16]), "L0": rng.choice([10., 25.]),
-                         "seed": rng.randint(0, 5), "seed_type": rng.choice(SEED_TYPES), "ncol": 2, "slf": rng.choice([2, 4])})
+                         "seed": rng.randint(0, 5), "seed_type": rng.choice(SEED_TYPES), "seed_kind": rng.choice(SEED_KINDS),
+                         "ncol": 2, "slf": rng.choice([2, 4])})
+    if force_kind is not None:
+        cfgs[0]["seed_kind"] = force_kind              # every run exercises unseeded / Generator / SeedSequence instances
+        if force_kind == "none" and len(cfgs) > 2:
+            cfgs[2] = dict(cfgs[0])                    # ... and two unseeded instances with identical parameters in one history
     ops, created = [], set()
     length = rng.randint(8, 16 if quick else 40)
     for _ in range(length):
@@ -117,14 +163,22 @@ def gen_history(rng, quick, force_twin=False):
             i = min(set(range(n_inst)) - created)
             created.add(i)
             ops.append({"op": "create", "i": i})
-        elif r < 0.6:
+        elif r < 0.52:
             ops.append({"op": "addRow", "i": rng.choice(sorted(created))})
+        elif r < 0.56:
+            # an instance id is created AGAIN (the caller rebuilds the screen object with the same arguments)
+            ops.append({"op": "create", "i": rng.choice(sorted(created))})
+        elif r < 0.60:
+            # the public methods a caller may use directly: a second make_initial_screen(), a bare get_new_row()
+            ops.append({"op": rng.choice(["reinit", "getRow"]), "i": rng.choice(sorted(created))})
         elif r < 0.7:
             ops.append({"op": "read", "i": rng.choice(sorted(created))})
         elif r < 0.8:
             ops.append({"op": "finite", "sh": rng.random() < 0.5, "seed": rng.randint(0, 3), "seed_type": rng.choice(SEED_TYPES),
-                        "N": rng.choice([8, 16]),
-                        "r0": 0.15, "delta": 0.05, "L0": 20., "l0": 0.01})
+                        "seed_kind": rng.choice(["int", "int", "int", "generator", "seedseq"]),
+                        "N": rng.choice([4, 8, 10, 16] if quick else [4, 8, 10, 16, 32]),
+                        "r0": rng.choice([0.1, 0.15, 0.3]), "delta": rng.choice([0.02, 0.05, 0.1]), "L0": rng.choice([5., 20., 100.]),
+                        "l0": rng.choice([0.001, 0.01])})
         elif r < 0.87:
             ops.append({"op": "globalSeed", "s": rng.randint(0, 100)})
         elif r < 0.94:
@@ -142,7 +196,7 @@ def execute(cfgs, ops, observe):
     """run a history on the real library; returns per-instance outputs, finite outputs, and the observed touch sets"""
     inst, outs, fin, touch = {}, {}, [], []
     for op in ops:
-        before = {i: gen_state(s._R) for i, s in inst.items()} if observe else None
+        before = {i: gen_state(inst_gen(s)) for i, s in inst.items()} if observe else None
         gb = global_state() if observe else None
         kind = op["op"]
         if kind == "create":
@@ -152,6 +206,15 @@ def execute(cfgs, ops, observe):
             s = inst[op["i"]]
             s.add_row()
             outs[op["i"]].append(numpy.array(s.scrn, copy=True))
+        elif kind == "reinit":
+            s = inst[op["i"]]
+            s.make_initial_screen()
+            outs[op["i"]].append(numpy.array(s.scrn, copy=True))
+        elif kind == "getRow":
+            s = inst[op["i"]]
+            before_scrn = numpy.array(s.scrn, copy=True)
+            row = numpy.array(s.get_new_row(), copy=True)
+            outs[op["i"]].append(numpy.concatenate([row.ravel(), before_scrn.ravel(), numpy.array(s.scrn, copy=True).ravel()]))
         elif kind == "read":
             s = inst[op["i"]]
             a = numpy.array(s.scrn, copy=True)
@@ -175,7 +238,7 @@ def execute(cfgs, ops, observe):
         if observe:
             ch = []
             for i, s in sorted(inst.items()):
-                if i not in before or gen_state(s._R) != before[i]:
+                if i not in before or gen_state(inst_gen(s)) != before[i]:
                     ch.append("i%d" % i)
             if global_state() != gb:
                 ch.append("g")
@@ -204,13 +267,79 @@ def solo_in_fresh_interpreter(cfgs, proj, i):
     return json.loads(lines[-1])
 
 
+def shared_generator_scenario(rng_py, quick):
+    """a caller-shared Generator: two infinite screens, two finite screens and the caller itself draw from ONE numpy Generator
+    G = default_rng(s).  Which numbers each gets is then decided by the order of the operations on G alone — returns the plan"""
+    cfgs = [{"variant": rng_py.choice(["vk", "fried"]), "nx": rng_py.choice([6, 8, 9] if quick else [6, 8, 9, 12]), "px": rng_py.choice([0.05, 0.1]),
+             "r0": rng_py.choice([0.1, 0.16]), "L0": rng_py.choice([10., 25.]), "ncol": 2, "slf": rng_py.choice([2, 4])} for _ in range(2)]
+    fin = {"N": rng_py.choice([4, 8, 10]), "r0": rng_py.choice([0.1, 0.3]), "delta": rng_py.choice([0.02, 0.1]), "L0": rng_py.choice([5., 100.]),
+           "l0": 0.01}
+    steps = ["A.create"] + rng_py.sample(["A.addRow", "B.create", "caller.draw", "B.addRow", "A.addRow", "fin.plain", "fin.sh", "A.getRow",
+                                          "B.addRow", "A.reinit"], 10)
+    if steps.index("B.create") > min(i for i, t in enumerate(steps) if t.startswith("B.") and t != "B.create"):
+        steps.remove("B.create")
+        steps.insert(1, "B.create")
+    return {"seed": rng_py.randint(0, 10 ** 6), "cfgs": cfgs, "fin": fin, "steps": steps}
+
+
+def run_shared(plan, world):
+    """execute a shared-generator plan; `world` selects unrelated activity interleaved between the steps (global seeding and
+    draws, other library calls, seeded finite screens, an unrelated seeded infinite screen)"""
+    from aotools.turbulence import infinitephasescreen as ips, phasescreen
+    G = numpy.random.default_rng(plan["seed"])
+    inst, outs = {}, []
+
+    def mk(c):
+        if c["variant"] == "vk":
+            return ips.PhaseScreenVonKarman(c["nx"], c["px"], c["r0"], c["L0"], random_seed=G, n_columns=c["ncol"])
+        return ips.PhaseScreenKolmogorov(c["nx"], c["px"], c["r0"], c["L0"], random_seed=G, stencil_length_factor=c["slf"])
+    for n, step in enumerate(plan["steps"]):
+        if world:
+            numpy.random.seed(1000 * world + n)
+            pyrandom.seed(world + n)
+            numpy.random.normal(size=n % 3 + 1)
+            other_call(n % 5)
+            if n % 3 == world % 3:
+                finite_call({"sh": bool(n % 2), "seed": n, "N": 8, "r0": .15, "delta": .05, "L0": 20., "l0": .01})
+            if n == 2 * world:
+                u = ips.PhaseScreenVonKarman(6, 0.1, 0.2, 20., random_seed=world, n_columns=2)
+                u.add_row()
+        who, what = step.split(".")
+        f = plan["fin"]
+        if what == "create":
+            inst[who] = mk(plan["cfgs"][0 if who == "A" else 1])
+            outs.append(numpy.array(inst[who].scrn, copy=True))
+        elif what == "addRow":
+            inst[who].add_row()
+            outs.append(numpy.array(inst[who].scrn, copy=True))
+        elif what == "getRow":
+            outs.append(numpy.array(inst[who].get_new_row(), copy=True))
+        elif what == "reinit":
+            inst[who].make_initial_screen()
+            outs.append(numpy.array(inst[who].scrn, copy=True))
+        elif what == "draw":
+            outs.append(G.normal(size=3))
+        elif what == "plain":
+            outs.append(numpy.array(phasescreen.ft_phase_screen(f["r0"], f["N"], f["delta"], f["L0"], f["l0"], seed=G)))
+        else:
+            outs.append(numpy.array(phasescreen.ft_sh_phase_screen(f["r0"], f["N"], f["delta"], f["L0"], f["l0"], seed=G)))
+    return outs
+
+
 def model_line(cfgs, ops):
     toks = []
     for op in ops:
         k = op["op"]
-        if k == "create":
-            toks.append("c:%d:%d:1" % (op["i"], cfgs[op["i"]]["seed"]))
-        elif k == "addRow":
+        if k in ("create", "reinit"):
+            # an unseeded instance is seeded from fresh entropy: a seed value nobody else has.  A second make_initial_screen()
+            # re-derives the generator from the stored seed argument: the model's `create` on an existing instance
+            c = cfgs[op["i"]]
+            if k == "reinit" and c.get("seed_kind") == "generator":
+                # default_rng(<Generator>) is that Generator: the stored object goes on, it is not re-seeded
+                toks.append("a:%d:1" % op["i"])
+                continue
+            toks.append("c:%d:%d:1" % (op["i"], 900000 + 7 * len(toks) if c.get("seed_kind") == "none" else c["seed"]))
+        elif k in ("addRow", "getRow"):
             toks.append("a:%d:1" % op["i"])
         elif k == "read":
             toks.append("r:%d" % op["i"])
@@ -227,14 +356,24 @@ def model_line(cfgs, ops):
 
 def run(chk):
     quick = chk.tier == "quick"
-    chk.rule = ("generated histories over 2-4 infinite screens (von Karman and Fried variants, some sharing seed and parameters), "
-                "finite screens, numpy/stdlib global seeding, global draws (numpy.random and optimal_grouping) and unrelated calls; "
+    chk.rule = ("generated histories over 2-4 infinite screens (von Karman and Fried variants, some sharing seed and parameters; seed given as "
+                "int of several types, private Generator, SeedSequence, or not at all), re-created instance ids, a second make_initial_screen(), "
+                "bare get_new_row(), finite screens (N in 4..32, varied r0/delta/L0/l0, int/Generator/SeedSequence seeds), numpy/stdlib global "
+                "seeding, global draws (numpy.random and optimal_grouping) and unrelated calls; plus plans in which two infinite screens, two "
+                "finite screens and the caller share ONE Generator (outputs must depend on the order of operations on it alone); unseeded "
+                "infinite screens must differ from each other with the global generators in the same state; "
                 "correspondence = touch set per operation (which generators changed state) model vs real; oracle = bitwise equality of "
                 "each instance's outputs with its isolated replay, of reproductions with each other, of seeded finite screens; "
                 "distinct = distinct (configuration, operation list)")
     chk.assumptions = ["'different seeds give different screens' and 'unseeded calls differ from each other' are sampled, not proved "
                        "(PCG64 / SeedSequence injectivity, OS entropy)",
-                       "numpy.random.default_rng(seed) / Generator.normal are deterministic functions of seed / state"]
+                       "numpy.random.default_rng(seed) / Generator.normal are deterministic functions of seed / state",
+                       "the touch sets are observed through the instance's numpy Generator attribute (`_R`, or the single Generator found among "
+                       "the instance attributes if it is renamed); if none can be found this is reported as broken correspondence, not as a violation",
+                       "the Lean model has integer seeds only: an unseeded instance is modelled as seeded with a value nobody else uses, a private "
+                       "Generator / SeedSequence built from s as the seed s, a second make_initial_screen() as `create` (as `addRow` when the stored seed is a "
+                       "Generator object, which goes on instead of being re-seeded), get_new_row() as `addRow`; a "
+                       "caller-SHARED Generator is outside the model (oracle only: bitwise equality under interleaved unrelated activity)"]
     try:
         src, meta = T2.translate(common.REPO)
         checks = meta.pop("__checks__")
@@ -247,8 +386,9 @@ def run(chk):
     n_hist = 20 if quick else 200
     lines, observed, cases = [], [], []
     fresh_budget = [4 if quick else 40]
+    observable = [True]
     for h in range(n_hist):
-        cfgs, ops = gen_history(chk.rng, quick, force_twin=(h < 4))
+        cfgs, ops = gen_history(chk.rng, quick, force_twin=(h < 4), force_kind={1: "none", 2: "generator", 3: "seedseq", 5: "none"}.get(h % 8))
         chk.case(("hist", json.dumps(cfgs, sort_keys=True), json.dumps(ops, sort_keys=True)),
                  sample={"configs": cfgs, "ops": ops[:8]} if h < 2 else None)
         for o in ops:
@@ -256,17 +396,43 @@ def run(chk):
         gseed = chk.rng.randint(0, 10 ** 6)
         numpy.random.seed(gseed)
         try:
-            outs, fin, touch = execute(cfgs, ops, observe=True)
+            try:
+                outs, fin, touch = execute(cfgs, ops, observe=observable[0])
+            except GeneratorNotFound as ex:
+                # HOW the library stores its per-instance generator is not part of the property
+                chk.broke("correspondence", "cannot observe which generators an operation touches: %s" % ex)
+                observable[0] = False
+                numpy.random.seed(gseed)
+                outs, fin, touch = execute(cfgs, ops, observe=False)
         except Exception as ex:
             chk.fail("raises:%s" % type(ex).__name__, "history raised %r" % (ex,), {"configs": cfgs, "ops": ops})
             continue
-        lines.append(model_line(cfgs, ops))
-        observed.append(touch)
-        cases.append((cfgs, ops))
+        if observable[0]:
+            lines.append(model_line(cfgs, ops))
+            observed.append(touch)
+            cases.append((cfgs, ops))
         chk.oracle_cases += 1
         # isolation: each instance alone, in a differently perturbed world
         for i, cfg in enumerate(cfgs):
-            proj = [o for o in ops if o.get("i") == i and o["op"] in ("create", "addRow", "read")]
+            proj = [o for o in ops if o.get("i") == i and o["op"] in OWN_OPS]
+            chk.count("seed-kind:" + cfg["seed_kind"])
+            if cfg["seed_kind"] == "none":
+                # unseeded: nothing to reproduce; two constructions must differ, in particular when NumPy's and the stdlib's global
+                # generators are in the SAME state both times (an unseeded screen must not fall back on a global generator)
+                numpy.random.seed(gseed)
+                pyrandom.seed(gseed)
+                solo, _, _ = execute(cfgs, proj[:1], observe=False)
+                numpy.random.seed(gseed)
+                pyrandom.seed(gseed)
+                solo2, _, _ = execute(cfgs, proj[:1], observe=False)
+                chk.count("unseeded-infinite-pairs")
+                firsts = [outs[i][0], solo[i][0], solo2[i][0]]
+                if any(firsts[x].tobytes() == firsts[y].tobytes() for x in range(3) for y in range(x + 1, 3)):
+                    chk.fail("unseeded-equal:infinite", "two unseeded %s screens with the same parameters are identical (same state of the "
+                             "global generators)" % cfg["variant"], {"configs": cfgs, "instance": i, "global_seed": gseed})
+                if any(not numpy.isfinite(x).all() for x in outs.get(i, [])):
+                    chk.fail("nonfinite:%s" % cfg["variant"], "instance %d produced non-finite values" % i, {"configs": cfgs, "ops": ops})
+                continue
             numpy.random.seed(gseed + 17 + i)
             numpy.random.normal(size=3)
             solo, _, _ = execute(cfgs, proj, observe=False)
@@ -284,12 +450,14 @@ def run(chk):
             cand = [i for i in range(len(cfgs)) if any(j != i and {k: v for k, v in cfgs[j].items() if k not in ("r0", "seed", "seed_type")}
                                                         == {k: v for k, v in cfgs[i].items() if k not in ("r0", "seed", "seed_type")}
                                                         for j in range(i))] or list(range(len(cfgs)))
-            i = cand[-1]
-            fresh_budget[0] -= 1
-            proj = [o for o in ops if o.get("i") == i and o["op"] in ("create", "addRow", "read")]
-            dig = solo_in_fresh_interpreter(cfgs, proj, i)
-            mine = [hashlib.sha256(numpy.ascontiguousarray(a).tobytes()).hexdigest() for a in outs.get(i, [])]
-            chk.count("fresh-interpreter-replays")
+            cand = [i for i in cand if cfgs[i]["seed_kind"] != "none"] or [i for i in range(len(cfgs)) if cfgs[i]["seed_kind"] != "none"]
+            i = cand[-1] if cand else None
+            fresh_budget[0] -= 1 if cand else 0
+            proj = [o for o in ops if o.get("i") == i and o["op"] in OWN_OPS]
+            dig = solo_in_fresh_interpreter(cfgs, proj, i) if cand else None
+            mine = [hashlib.sha256(numpy.ascontiguousarray(a).tobytes()).hexdigest() for a in outs.get(i, [])] if cand else None
+            if cand:
+                chk.count("fresh-interpreter-replays")
             if dig != mine:
                 chk.fail("isolation:fresh-process:%s" % cfgs[i]["variant"], "instance %d (%s, seed %d, r0 %g) produced different screens in this "
                          "history than when run alone in a fresh interpreter" % (i, cfgs[i]["variant"], cfgs[i]["seed"], cfgs[i]["r0"]),
@@ -297,9 +465,18 @@ def run(chk):
         # reproductions: instances with identical configuration and identical own operation sequence
         for i in range(len(cfgs)):
             for j in range(i + 1, len(cfgs)):
-                pi = [o["op"] for o in ops if o.get("i") == i and o["op"] in ("create", "addRow", "read")]
-                pj = [o["op"] for o in ops if o.get("i") == j and o["op"] in ("create", "addRow", "read")]
+                pi = [o["op"] for o in ops if o.get("i") == i and o["op"] in OWN_OPS]
+                pj = [o["op"] for o in ops if o.get("i") == j and o["op"] in OWN_OPS]
                 n = min(len(pi), len(pj))
+                if cfgs[i]["seed_kind"] == "none" or cfgs[j]["seed_kind"] == "none":
+                    if canon(cfgs[i]) == canon(cfgs[j]) and outs[i][0].tobytes() == outs[j][0].tobytes():
+                        chk.fail("unseeded-equal:infinite", "two unseeded %s screens with the same parameters are identical" % cfgs[i]["variant"],
+                                 {"configs": cfgs, "pair": [i, j]})
+                    continue
+                # a second make_initial_screen() re-derives the generator from the stored seed argument: an int / SeedSequence
+                # restarts the stream, a Generator object goes on — reproductions across these two forms part ways there
+                if "reinit" in pi[:n] and (cfgs[i]["seed_kind"] == "generator") != (cfgs[j]["seed_kind"] == "generator"):
+                    n = pi.index("reinit")
                 if canon(cfgs[i]) == canon(cfgs[j]) and pi[:n] == pj[:n]:
                     chk.count("reproduction-pairs")
                     for x, y in zip(outs[i][:n], outs[j][:n]):
@@ -333,6 +510,29 @@ def run(chk):
             k2 = dict(k, seed=k["seed"] + 1)
             if finite_call(k2).tobytes() == val.tobytes():
                 chk.fail("seeds-differ:finite", "finite screens with seeds %d and %d are identical" % (k["seed"], k["seed"] + 1), {"call": k})
+    # caller-shared Generator: the outputs are a function of the order of the operations on that generator alone
+    for k in range(3 if quick else 30):
+        plan = shared_generator_scenario(chk.rng, quick)
+        chk.oracle_cases += 1
+        chk.count("shared-generator-plans")
+        chk.case(("shared", json.dumps(plan, sort_keys=True)), sample=plan if k == 0 else None)
+        try:
+            runs = [run_shared(plan, w) for w in (0, 1, 2)]
+        except Exception as ex:
+            chk.fail("raises:shared-generator:%s" % type(ex).__name__, "shared-generator plan raised %r" % (ex,), plan)
+            continue
+        for w in (1, 2):
+            for n, (x, y) in enumerate(zip(runs[0], runs[w])):
+                if x.shape != y.shape or x.tobytes() != y.tobytes():
+                    chk.fail("isolation:shared-generator", "with a caller-shared Generator (seed %d) step %d (%s) gave a different result when "
+                             "unrelated library calls / global seeding / other instances were interleaved" % (plan["seed"], n, plan["steps"][n]),
+                             dict(plan, world=w, step=n))
+                    break
+        # the first consumer of a fresh default_rng(s) sees the stream of the int seed s
+        c0 = dict(plan["cfgs"][0], seed=plan["seed"], seed_type="int", seed_kind="int")
+        if mk_screen(c0).scrn.tobytes() != runs[0][0].tobytes():
+            chk.fail("repro:generator-seed", "an infinite screen given default_rng(%d) differs from the one given the int seed %d"
+                     % (plan["seed"], plan["seed"]), dict(plan))
     # unseeded calls differ from each other (sampled clause)
     for sh in (False, True):
         k = {"sh": sh, "seed": None, "N": 8, "r0": .15, "delta": .05, "L0": 20., "l0": .01}
